@@ -23,7 +23,7 @@ from .c01 import fmt_tag
 ID = "C15"
 PROBES = ['fault_sessions', 'restarts', 'early_phase_crash_sessions', 'probe_formatter_failed_session_completed', 'probe_unparsable_formatter_output', 'references_resolved', 'inline_fault_sessions']  # reach probes: counters that must be non-zero in a run (a zero is printed and recorded)
 LEVEL = "fault_enumeration"
-BUDGET = {"quick": 10, "thorough": 200}
+BUDGET = {"quick": 10, "thorough": 120}
 WALL = {"quick": 420, "thorough": 3400}
 TECHNIQUE = "deterministic simulation with fault injection: per workload every seam index of the session-finish phase x every applicable fault kind, each followed by a simulated restart; workloads by seeded search"
 LEVEL_TEXT = ("for each seeded workload (change set over 1-3 files with 0-3 externals, persist + rewrite + trim all happening) the fault space "
